@@ -59,6 +59,7 @@ func checkC11(p *Program, r *Reporter) {
 	if h == nil || diff == nil || cpc == nil || npd == nil || rdr == nil || live == nil {
 		return
 	}
+	oldQueryRule(p, r, h)
 	// (a) status table + sentinel propagation
 	r.Rule("E5-STATUS", "patch handler: same publishTime -> 425, beyond ttl -> 410", 2)
 	ruleStatusTable(p, r, "E5-STATUS", h, map[string]int64{"ErrPatchSamePublishTime": 425, "ErrPatchTooLate": 410})
@@ -352,4 +353,55 @@ func nameOf(v ssa.Value) string {
 		return "nothing"
 	}
 	return v.Name()
+}
+
+// oldQueryRule: the query with which the patch handler regenerates the old MPD is cut out of the request's
+// raw query; the publishTime in it is not re-encoded (a re-encoding with time.Format drops the fraction of
+// a second unless the layout carries one, and the old MPD is then regenerated for an earlier instant).
+func oldQueryRule(p *Program, r *Reporter, h *ssa.Function) {
+	r.Rule("E4-OLDQUERY", "the queries of the two regenerated MPDs are taken from the request's raw query, no time value is re-formatted into them", 2)
+	n := 0
+	for _, fn := range cluster(h) {
+		for _, b := range fn.Blocks {
+			for _, in := range b.Instrs {
+				st, ok := in.(*ssa.Store)
+				if !ok {
+					continue
+				}
+				if f, ok := fieldOfAddr(st.Addr); !ok || f != "url.URL.RawQuery" {
+					continue
+				}
+				n++
+				var formats []string
+				seen := map[ssa.Value]bool{}
+				fromRaw := false
+				sliceVisit(p, st.Val, true, func(x ssa.Value) {
+					if seen[x] {
+						return
+					}
+					seen[x] = true
+					if c, ok := x.(*ssa.Call); ok && c.Call.StaticCallee() != nil {
+						switch c.Call.StaticCallee().String() {
+						case "(time.Time).Format", "(time.Time).AppendFormat", "(time.Time).String":
+							formats = append(formats, c.Call.StaticCallee().String()+" at "+p.pos(c.Pos()))
+						}
+					}
+					if f, ok := loadedField(x); ok && f == "url.URL.RawQuery" {
+						fromRaw = true
+					}
+				})
+				switch {
+				case len(formats) > 0:
+					r.Violate("E4-OLDQUERY", shortFn(fn), "store:URL.RawQuery", p.pos(st.Pos()), "a time value is re-formatted into the query of a regenerated MPD ("+strings.Join(formats, ", ")+"): a publishTime with a fraction of a second no longer selects the MPD that advertised the patch", nil)
+				case !fromRaw:
+					r.Violate("E4-OLDQUERY", shortFn(fn), "store:URL.RawQuery", p.pos(st.Pos()), "the query of a regenerated MPD is not derived from the request's raw query", nil)
+				default:
+					r.Discharge("E4-OLDQUERY", shortFn(fn), "store:URL.RawQuery", p.pos(st.Pos()), "derived from the raw query by removing keys")
+				}
+			}
+		}
+	}
+	if n == 0 {
+		r.Broken("patchHandlerFunc: no store to URL.RawQuery found")
+	}
 }
